@@ -370,6 +370,18 @@ def seeded_opt(s1, s2, mat, gap, seed, direction):
     return total
 
 
+def dp_seeded_opt(s1, s2, mat, gap, seed, direction):
+    """Seeded optimum by dynamic programming (for sequences too long for enumeration): seed pair
+    + best anchored extension of the reversed prefixes (upstream) + of the suffixes (downstream)."""
+    i0, j0 = seed
+    total = mat[s1[i0]][s2[j0]]
+    if direction in ("both", "upstream"):
+        total += dp_opt(tuple(reversed(s1[:i0])), tuple(reversed(s2[:j0])), mat, gap, "prefix")
+    if direction in ("both", "downstream"):
+        total += dp_opt(tuple(s1[i0 + 1:]), tuple(s2[j0 + 1:]), mat, gap, "prefix")
+    return total
+
+
 def diagonal_runs(s1, s2, mat, seed, direction):
     """Ungapped: (best score, maximal drawdown seen when walking each requested arm to its end).
     The drawdown is the largest amount by which the running arm score lies below the best
@@ -401,12 +413,15 @@ def dp_opt(s1, s2, mat, gap, mode):
     """Needleman-Wunsch / Smith-Waterman / Gotoh optimum.  Three states: M (last column is a
     pair), X (last column: symbol of s1 against gap), Y (symbol of s2 against gap).  With a
     linear penalty every transition is allowed; with affine penalties X<->Y is not.
-    Unreachable states hold values around NEG (-10^15), far below any real score."""
+    Unreachable states hold values around NEG (-10^15), far below any real score.
+    mode "prefix": best alignment of a prefix of s1 with a prefix of s2 that starts at (0, 0),
+    every gap charged, or the empty one (0) - the anchored extension of a seeded alignment."""
     n, m = len(s1), len(s2)
     go, ge = gap_pair(gap)
     affine = is_affine(gap)
     free = mode == "semi"
     local = mode == "local"
+    prefix = mode == "prefix"
     lim = NEG // 2
     M = [[NEG] * (m + 1) for _ in range(n + 1)]
     X = [[NEG] * (m + 1) for _ in range(n + 1)]
@@ -461,13 +476,13 @@ def dp_opt(s1, s2, mat, gap, mode):
                     if t > y:
                         y = t
                 Yi[j] = y
-            if local:
+            if local or prefix:
                 if Mi[j] > best:
                     best = Mi[j]
                 if Xi[j] > best:
                     best = Xi[j]
                 if Yi[j] > best:
                     best = Yi[j]
-    if local:
+    if local or prefix:
         return best
     return max(M[n][m], X[n][m], Y[n][m])
